@@ -57,10 +57,12 @@ class Number(NumericElement[float]):
 
     def construct(self, value, _property):  # pylint: disable=no-self-use
         try:
-            return float(value)
+            converted = float(value)
         except OverflowError:
             # Integers beyond the float range are kept as they are.
             return value
+        # So are integers which no float represents exactly.
+        return converted if converted == value else value
 
     @property
     def type_validator(self):
